@@ -4,6 +4,11 @@
 //   #define BEH_PARAMS  P(theta) P(young) ...      parameters (class members), made symbolic variables
 //   #define BEH_STENSORS T(khr_a_0) ...            state variables of tensor type other than eel (in the order of zeros)
 //   #define BEH_SCALARS  S(p)                      scalar state variables (in the order of zeros, after the tensors)
+//   #define BEH_DOUBLE_ONLY                        (optional) no Sym instantiation: AGREE is skipped, NJ runs on every state whose
+//                                                  double instantiation is on the plastic-loading branch (bpl)
+//   #define BEH_MC_LODET <radians>                 (optional) Mohr-Coulomb state generator: stresses built from principal values with a
+//                                                  prescribed Lode angle, half of them in the rounded-corner zones |lode| > lodeT
+//   -DBRICK_HAG / -DBRICK_HPE / -DBRICK_H3D        hypotheses compiled in (the run-time <hyps> argument selects among them)
 //   trace_brick gen <out.v> <seed> <ncases> <hyps>
 // Coq: <tag>_cond_<h>, <tag>_fz_<h> (n), <tag>_jac_<h> (n x n, row major) on the path that contains a plastic-loading
 // reference state; inputs ( eel[S] deto[S] <tensors>[S].. <scalars>.. dt <params>.. z[n] ).
@@ -94,18 +99,49 @@ struct Beh {
   }
 };
 
+template <typename B>
+bool plastic_branch(const B& b) {
+  if constexpr (requires { b.bpl; }) {
+    return b.bpl;
+  } else {
+    return true;
+  }
+}
+
 template <Hyp h, typename T>
-std::vector<T> fdf(const std::vector<T>& in, const std::vector<T>& z) {
+std::vector<T> fdf(const std::vector<T>& in, const std::vector<T>& z, bool* bpl = nullptr, std::vector<T>* sig = nullptr) {
   Beh<h, T> w(in);
   if (!w.b->initialize()) throw std::runtime_error("initialize failed");
   for (int i = 0; i < w.n; ++i) w.b->zeros(i) = z[i];
   w.b->computeThermodynamicForces();
+  if (bpl != nullptr) *bpl = plastic_branch(*(w.b));
+  if (sig != nullptr) {
+    sig->clear();
+    for (int i = 0; i < Beh<h, T>::S; ++i) sig->push_back(w.b->sig[i]);
+  }
   if (!w.b->computeFdF(false)) throw std::runtime_error("computeFdF failed");
   std::vector<T> out;
   for (int i = 0; i < w.n; ++i) out.push_back(w.b->fzeros(i));
   for (int i = 0; i < w.n; ++i)
     for (int j = 0; j < w.n; ++j) out.push_back(w.b->jacobian(i, j));
   return out;
+}
+
+// Lode angle (degrees) of a stress in TFEL storage, convention of Abbo and Sloan: lode = asin(-3 sqrt(3) J3 / (2 J2^(3/2))) / 3
+inline double lode_deg(const std::vector<double>& sg) {
+  const double c = std::sqrt(2.);
+  double t[6] = {0, 0, 0, 0, 0, 0};
+  for (size_t i = 0; i < sg.size() && i < 6; ++i) t[i] = sg[i];
+  const double tr = (t[0] + t[1] + t[2]) / 3;
+  const double s[3][3] = {{t[0] - tr, t[3] / c, t[4] / c}, {t[3] / c, t[1] - tr, t[5] / c}, {t[4] / c, t[5] / c, t[2] - tr}};
+  double J2 = 0;
+  for (int i = 0; i != 3; ++i)
+    for (int j = 0; j != 3; ++j) J2 += s[i][j] * s[i][j] / 2;
+  const double J3 = s[0][0] * (s[1][1] * s[2][2] - s[1][2] * s[2][1]) - s[0][1] * (s[1][0] * s[2][2] - s[1][2] * s[2][0]) +
+                    s[0][2] * (s[1][0] * s[2][1] - s[1][1] * s[2][0]);
+  if (!(J2 > 0)) return 0;
+  const double arg = std::min(std::max(-3 * std::sqrt(3.) * J3 / (2 * J2 * std::sqrt(J2)), -1.), 1.);
+  return std::asin(arg) / 3 * 180 / 3.14159265358979323846;
 }
 
 template <Hyp h>
@@ -122,12 +158,12 @@ void doit(Trace& tr, const std::string& tag, uint64_t seed, int ncases) {
   for (auto& p : pn) gin.push_back({p, 0});
   Groups gall = gin;
   gall.push_back({"z", n});
-  auto pin = mkvars(gin), pz = mkvars(Groups{{"z", n}}), pall = mkvars(gall);
   auto nm = names(gall);
   Rng rng(seed + 300 + S);
-  double young = 1e5, R0 = 100;
+  double young = 1e5, nu = 0.3, R0 = 100;
   for (size_t i = 0; i < pn.size(); ++i) {
     if (pn[i] == "young") young = pd[i];
+    if (pn[i] == "nu") nu = pd[i];
     if (pn[i] == "ihr_R0_") R0 = pd[i];
   }
   // plastic loading states: elastic strain such that the von Mises stress is about 1.1..2 x R0 (+ hardening)
@@ -137,7 +173,50 @@ void doit(Trace& tr, const std::string& tag, uint64_t seed, int ncases) {
     for (int i = 0; i < S; ++i) dir.push_back(rng.range(-1, 1));
     const double sc = (plastic ? rng.range(1.5, 3.) : rng.range(0.05, 0.3)) * R0 / young;
     for (int i = 0; i < S; ++i) in.push_back(dir[i] * sc);
-    const double de = std::pow(10., rng.range(-5, -3.5));
+    double de = std::pow(10., rng.range(-5, -3.5));
+#ifdef BEH_MC_LODET
+    if constexpr (S == 6) {
+      // stress = Q diag(pm + s_k) Q^T with a prescribed Lode angle th; half of the plastic states in the rounded-corner zones
+      const double pi = 3.14159265358979323846, lodeT = (BEH_MC_LODET) * 180 / pi;
+      const bool corner = plastic && rng.below(2) == 0;
+      double th = corner ? (rng.below(2) ? 1. : -1.) * rng.range(lodeT + 0.4, 29.5) : rng.range(-(lodeT - 0.4), lodeT - 0.4);
+      th *= pi / 180;
+      const double sJ2 = plastic ? rng.range(60, 220) : rng.range(2, 10), pm = rng.range(-60, -10);
+      // deviatoric principal values with asin(-3 sqrt 3 J3 / (2 J2^1.5))/3 = th
+      const double pr[3] = {pm + 2 / std::sqrt(3.) * sJ2 * std::sin(th + 2 * pi / 3), pm + 2 / std::sqrt(3.) * sJ2 * std::sin(th),
+                            pm + 2 / std::sqrt(3.) * sJ2 * std::sin(th - 2 * pi / 3)};
+      // random rotation (Gram-Schmidt)
+      double q[3][3];
+      for (;;) {
+        double a[3], b[3];
+        for (int i = 0; i < 3; ++i) a[i] = rng.range(-1, 1), b[i] = rng.range(-1, 1);
+        const double na = std::sqrt(a[0] * a[0] + a[1] * a[1] + a[2] * a[2]);
+        if (na < 0.2) continue;
+        for (int i = 0; i < 3; ++i) a[i] /= na;
+        const double ab = a[0] * b[0] + a[1] * b[1] + a[2] * b[2];
+        for (int i = 0; i < 3; ++i) b[i] -= ab * a[i];
+        const double nb = std::sqrt(b[0] * b[0] + b[1] * b[1] + b[2] * b[2]);
+        if (nb < 0.2) continue;
+        for (int i = 0; i < 3; ++i) b[i] /= nb;
+        const double cc[3] = {a[1] * b[2] - a[2] * b[1], a[2] * b[0] - a[0] * b[2], a[0] * b[1] - a[1] * b[0]};
+        for (int i = 0; i < 3; ++i) q[i][0] = a[i], q[i][1] = b[i], q[i][2] = cc[i];
+        break;
+      }
+      double sg[3][3];
+      for (int i = 0; i < 3; ++i)
+        for (int j = 0; j < 3; ++j) {
+          sg[i][j] = 0;
+          for (int k = 0; k < 3; ++k) sg[i][j] += q[i][k] * pr[k] * q[j][k];
+        }
+      // elastic strain of that stress (isotropic Hooke law), TFEL storage
+      const double trs = sg[0][0] + sg[1][1] + sg[2][2];
+      const double e[6] = {((1 + nu) * sg[0][0] - nu * trs) / young, ((1 + nu) * sg[1][1] - nu * trs) / young,
+                           ((1 + nu) * sg[2][2] - nu * trs) / young, (1 + nu) * sg[0][1] / young * std::sqrt(2.),
+                           (1 + nu) * sg[0][2] / young * std::sqrt(2.), (1 + nu) * sg[1][2] / young * std::sqrt(2.)};
+      for (int i = 0; i < S; ++i) in[i] = e[i];
+      de = std::pow(10., rng.range(-6.5, -5.5));  // small increments: the Lode angle of the iterate stays that of the state
+    }
+#endif
     for (int i = 0; i < S; ++i) in.push_back((0.8 * dir[i] + 0.2 * rng.range(-1, 1)) * de);
     for (size_t t = 0; t < tn.size(); ++t)
       for (int i = 0; i < S; ++i) in.push_back(rng.range(-1, 1) * 1e-4);
@@ -160,64 +239,94 @@ void doit(Trace& tr, const std::string& tag, uint64_t seed, int ncases) {
     for (size_t i = 0; i < z.size(); ++i) env[nm[in.size() + i]] = z[i];
     return env;
   };
+  std::printf("LAYOUT %s %s n=%d S=%d params:", bt.c_str(), tag.c_str(), n, S);
+  for (auto& x : nm) std::printf(" %s", x.c_str());
+  std::printf("\n");
+#ifndef BEH_DOUBLE_ONLY
+  auto pin = mkvars(gin), pz = mkvars(Groups{{"z", n}}), pall = mkvars(gall);
   auto f_fdf = [&] { return fdf<h, Sym>(pin, pz); };
-  auto in0 = rand_in(true);
-  auto z0 = rand_z(in0);
-  Leaf L0 = leaf_at(f_fdf, mkenv(in0, z0));
-  if (!L0.error.empty()) throw std::runtime_error("reference leaf failed: " + L0.error);
+  // reference state: the first seeded state on the plastic-loading branch of the double instantiation
+  Leaf L0;
+  bool found = false;
+  for (int t = 0; t < 200 && !found; ++t) {
+    auto in0 = rand_in(true);
+    auto z0 = rand_z(in0);
+    bool bpl0 = false;
+    fdf<h, double>(in0, z0, &bpl0);
+    if (!bpl0) continue;
+    L0 = leaf_at(f_fdf, mkenv(in0, z0));
+    if (!L0.error.empty()) throw std::runtime_error("reference leaf failed: " + L0.error);
+    found = true;
+  }
+  if (!found) throw std::runtime_error("no plastic-loading reference state");
   std::vector<Sym> fz(L0.out.begin(), L0.out.begin() + n), jac(L0.out.begin() + n, L0.out.end());
   def_cond(tr, bt + "_cond_" + tag, pall, L0);
   tr.def(bt + "_fz_" + tag, pall, fz);
   tr.def(bt + "_jac_" + tag, pall, jac);
-  std::printf("LAYOUT %s %s n=%d S=%d params:", bt.c_str(), tag.c_str(), n, S);
-  for (auto& x : nm) std::printf(" %s", x.c_str());
-  std::printf("\n");
+#endif
   Agree ag;
-  long onref = 0, njbad = 0, nj = 0;
+  long onref = 0, njbad = 0, nj = 0, ncorner = 0;
   for (int c = 0; c < ncases; ++c) {
     auto in = rand_in(c % 5 != 4);
     auto z = rand_z(in);
+    bool bpl = true;
+    std::vector<double> sg;
+    auto d = fdf<h, double>(in, z, &bpl, &sg);
+#ifndef BEH_DOUBLE_ONLY
     Env env = mkenv(in, z);
     Leaf L = leaf_at(f_fdf, env);
     if (!L.error.empty()) continue;
     const bool ref = same_path(L, L0);
-    if (ref) ++onref;
-    auto d = fdf<h, double>(in, z);
     std::vector<long double> sc(d.size(), 1e-30L);
     long double e = 0;
     for (int i = 0; i < 2 * S; ++i) e = std::max<long double>(e, std::fabs(in[i]));
     for (int i = 0; i < n; ++i) sc[i] = e;
     for (size_t i = n; i < d.size(); ++i) sc[i] = 1e-6L;
     ag.cmpv(eval_all(L.out, env), d, sc, 1e-9L);
+#else
+    const bool ref = bpl && (c % 5 != 4);
+#endif
+    if (ref) ++onref;
     // failing-input search: analytical jacobian vs centred differences of fzeros (double code), on the reference path only
-    if (ref && c < 200) {
+    if (ref && nj < 200) {
       ++nj;
+      const double lode = lode_deg(sg);
+#ifdef BEH_MC_LODET
+      const bool corner = std::fabs(lode) > (BEH_MC_LODET) * 180 / 3.14159265358979323846;
+#else
+      const bool corner = false;
+#endif
+      if (corner) ++ncorner;
       double worst = 0;
       int wi = 0, wj = 0;
       double wa = 0, wn = 0;
       for (int j = 0; j < n; ++j) {
-        const double hst = 1e-6 * std::max(1e-5, std::fabs(z[j]));
+        const double hst = 1e-4 * std::max(1e-6, std::fabs(z[j]));
         auto zp = z, zm = z;
         zp[j] += hst;
         zm[j] -= hst;
         auto fp = fdf<h, double>(in, zp), fm = fdf<h, double>(in, zm);
         for (int i = 0; i < n; ++i) {
           const double num = (fp[i] - fm[i]) / (2 * hst), ana = d[n + n * i + j];
-          const double err = std::fabs(num - ana) / std::max({std::fabs(num), std::fabs(ana), 1e-3});
+          // rounding of the difference quotient: a few ulps of the residual divided by the step
+          const double rnd = 16 * 2.3e-16 * std::max({std::fabs(fp[i]), std::fabs(fm[i]), std::fabs(z[i])}) / (2 * hst);
+          const double err = std::max(0., std::fabs(num - ana) - rnd) / std::max({std::fabs(num), std::fabs(ana), 1e-3});
           if (err > worst) worst = err, wi = i, wj = j, wa = ana, wn = num;
         }
       }
       if (worst > 1e-3) {
         ++njbad;
-        std::printf("NJ-FAIL %s %s i %d j %d analytical %.10g numerical %.10g", bt.c_str(), tag.c_str(), wi, wj, wa, wn);
+        std::printf("NJ-FAIL %s %s i %d j %d analytical %.10g numerical %.10g lode %.4g", bt.c_str(), tag.c_str(), wi, wj, wa, wn, lode);
         print_vec("in", in);
         print_vec("z", z);
         std::printf("\n");
       }
     }
   }
+#ifndef BEH_DOUBLE_ONLY
   std::printf("AGREE %s-fdf %s n=%ld bad=%ld worst=%.3Lg onref=%ld\n", bt.c_str(), tag.c_str(), ag.n, ag.bad, ag.worst, onref);
-  std::printf("NJ %s %s n=%ld bad=%ld\n", bt.c_str(), tag.c_str(), nj, njbad);
+#endif
+  std::printf("NJ %s %s n=%ld bad=%ld corner=%ld\n", bt.c_str(), tag.c_str(), nj, njbad, ncorner);
 }
 
 int main(int argc, char** argv) {
@@ -230,9 +339,15 @@ int main(int argc, char** argv) {
   const std::string hy = std::string(",") + argv[5] + ",";
   Trace tr(std::string("Gen") + BEH_TAG);
   try {
+#ifdef BRICK_HAG
     if (hy.find(",hag,") != std::string::npos) doit<ModellingHypothesis::AXISYMMETRICALGENERALISEDPLANESTRAIN>(tr, "hag", seed, n);
+#endif
+#ifdef BRICK_HPE
     if (hy.find(",hpe,") != std::string::npos) doit<ModellingHypothesis::PLANESTRAIN>(tr, "hpe", seed, n);
+#endif
+#ifdef BRICK_H3D
     if (hy.find(",h3d,") != std::string::npos) doit<ModellingHypothesis::TRIDIMENSIONAL>(tr, "h3d", seed, n);
+#endif
   } catch (std::exception& e) {
     std::fprintf(stderr, "trace_brick: %s\n", e.what());
     return 1;
